@@ -130,6 +130,9 @@ type Case struct {
 	SlotDates string
 	// DevExt: extra extensions of the device certificate (see deviceCertExt)
 	DevExt string
+	// DevSig: the algorithm the issuer signed the device certificate with: "" (SHA-256) | sha1 | sha384 | sha512.
+	// A SHA-1 signature is one the platform verifier refuses by policy: only 'accepted => valid chain' is judged.
+	DevSig string
 	// Ctor: "" = NewAttestorWithCAPool | files = NewAttestor with the pool's roots written to two PEM files
 	Ctor string
 }
@@ -211,13 +214,13 @@ func rootCert(name string) *x509.Certificate {
 }
 
 func deviceCert(dev, issuer, validity string) *x509.Certificate {
-	return deviceCertExt(dev, issuer, validity, "")
+	return deviceCertExt(dev, issuer, validity, "", "")
 }
 
 // deviceCertExt: ext adds extensions to the device certificate: yubico-critical | yubico-plain |
 // other-critical | yubico+other-critical ("" = none).
-func deviceCertExt(dev, issuer, validity, ext string) *x509.Certificate {
-	key := dev + "/" + issuer + "/" + validity + "/" + ext
+func deviceCertExt(dev, issuer, validity, ext, sig string) *x509.Certificate {
+	key := dev + "/" + issuer + "/" + validity + "/" + ext + "/" + sig
 	certMu.Lock()
 	if c, ok := certCache[key]; ok {
 		certMu.Unlock()
@@ -232,8 +235,16 @@ func deviceCertExt(dev, issuer, validity, ext string) *x509.Certificate {
 	case "future":
 		spec.NotBefore, spec.NotAfter = now.Add(24*time.Hour), now.Add(48*time.Hour)
 	}
-	if ext != "" {
+	if ext != "" || sig != "" {
 		spec.Mutate = func(tpl *x509.Certificate) {
+			switch sig {
+			case "sha1":
+				tpl.SignatureAlgorithm = x509.SHA1WithRSA
+			case "sha384":
+				tpl.SignatureAlgorithm = x509.SHA384WithRSA
+			case "sha512":
+				tpl.SignatureAlgorithm = x509.SHA512WithRSA
+			}
 			yubico := pkix.Extension{Id: asn1.ObjectIdentifier{1, 3, 6, 1, 4, 1, 41482, 3, 3}, Value: []byte{5, 4, 3}, Critical: ext != "yubico-plain"}
 			other := pkix.Extension{Id: asn1.ObjectIdentifier{1, 2, 3, 4, 5}, Value: []byte{5, 0}, Critical: true}
 			switch ext {
@@ -276,10 +287,16 @@ func genCase(t *rapid.T) Case {
 	c.Validity = rapid.SampledFrom([]string{"ok", "ok", "ok", "ok", "ok", "ok", "expired", "future"}).Draw(t, "validity")
 	c.Pool = rapid.SampledFrom([][]string{{"rootA"}, {"rootA", "rootB"}, {"rootA", "rootB", "rootC"}, {"rootB"}, {"rootC", "rootA"}, {"rootC"}}).Draw(t, "pool")
 	c.Algo = rapid.SampledFrom([]int{3, 4, 5, 6, 3, 4, 5, 6, 3, 4, 5, 6, 0, 1, 2, 7, 8, 9, 10, 11, 12, 13, 14, 15, 16, 17, 18, 19, 20}).Draw(t, "algo")
-	if rapid.IntRange(0, 9).Draw(t, "focus") < 6 {
+	focus := rapid.IntRange(0, 9).Draw(t, "focus")
+	if focus < 5 {
 		// single-fault focus: everything but the encoded message is valid
 		c.Issuer, c.Validity, c.Pool = "rootA", "ok", []string{"rootB", "rootA"}
 		c.Algo = rapid.IntRange(3, 6).Draw(t, "focusAlgo")
+	}
+	if focus >= 8 {
+		// chain focus: the signature is genuine (see the end of this function), only the device
+		// certificate's chain, dates, extensions, signature algorithm and the constructor vary
+		c.Algo = rapid.IntRange(3, 6).Draw(t, "chainFocusAlgo")
 	}
 	c.SlotDates = rapid.SampledFrom([]string{"zero", "now", "past", "future"}).Draw(t, "slotDates")
 	c.DevExt = rapid.SampledFrom([]string{"", "", "", "", "", "", "yubico-plain", "yubico-critical", "yubico-critical", "other-critical", "yubico+other-critical"}).Draw(t, "devExt")
@@ -288,6 +305,7 @@ func genCase(t *rapid.T) Case {
 		c.Issuer = rapid.SampledFrom([]string{"self", "foreign", "rootA", "rootB"}).Draw(t, "extIssuer")
 		c.Validity = rapid.SampledFrom([]string{"expired", "future", "ok"}).Draw(t, "extValidity")
 	}
+	c.DevSig = rapid.SampledFrom([]string{"", "", "", "", "sha1", "sha1", "sha384", "sha512"}).Draw(t, "devSig")
 	c.Ctor = rapid.SampledFrom([]string{"", "", "files"}).Draw(t, "ctor")
 	c.TBS = rapid.SliceOfN(rapid.Byte(), 1, 120).Draw(t, "tbs")
 	h, _ := labelHash(x509.SignatureAlgorithm(c.Algo))
@@ -299,7 +317,7 @@ func genCase(t *rapid.T) Case {
 	}
 	c.EMHash = h
 	c.Form = rapid.IntRange(1, 2).Draw(t, "form")
-	c.Kind = rapid.SampledFrom([]string{"form1", "form2", "form1", "form2", "replace", "replace", "replace", "replace", "shortpad", "shortpad", "shortem", "wronghash", "otherdata", "sigflip", "tbsflip", "sigrandom", "ecdsa-device", "siglonger"}).Draw(t, "kind")
+	c.Kind = rapid.SampledFrom([]string{"form1", "form2", "form1", "form2", "replace", "replace", "replace", "replace", "shortpad", "shortpad", "shortem", "wronghash", "otherdata", "sigflip", "tbsflip", "sigrandom", "ecdsa-device", "siglonger", "dervariant", "dervariant"}).Draw(t, "kind")
 	switch c.Kind {
 	case "form1":
 		c.Form = 1
@@ -345,6 +363,10 @@ func genCase(t *rapid.T) Case {
 		c.Garbage = rapid.SliceOfN(rapid.Byte(), 0, 16).Draw(t, "garbage")
 	case "shortem":
 		c.PadLen = rapid.IntRange(0, 7).Draw(t, "padLen")
+	case "dervariant":
+		// a full-length message whose digest identifier is another DER / BER spelling of the same content
+		c.PadLen = rapid.IntRange(0, 7).Draw(t, "derVariant")
+		c.Garbage = rapid.SliceOfN(rapid.Byte(), 1, 12).Draw(t, "derJunk")
 	case "wronghash":
 		others := []string{}
 		for _, o := range []string{"sha1", "sha256", "sha384", "sha512", "md5", "sha224"} {
@@ -366,7 +388,36 @@ func genCase(t *rapid.T) Case {
 		c.DevKey = rapid.SampledFrom([]string{"p256b", "p384a", "p521a"}).Draw(t, "ecdev")
 		c.Algo = rapid.SampledFrom([]int{10, 11, 12, 4}).Draw(t, "ecalgo")
 	}
+	if focus >= 8 && c.Kind != "ecdsa-device" {
+		c.Kind = rapid.SampledFrom([]string{"form1", "form2"}).Draw(t, "chainFocusKind")
+		c.Form = 1
+		if c.Kind == "form2" {
+			c.Form = 2
+		}
+		h, _ := labelHash(x509.SignatureAlgorithm(c.Algo))
+		c.EMHash = h
+	}
 	return c
+}
+
+var (
+	genuineMu    sync.Mutex
+	genuineCache = map[string][2][]byte{}
+)
+
+// genuineFor returns a body and its genuine SHA-256 form-1 signature under the device key (cached).
+func genuineFor(dev string) (tbs, sig []byte) {
+	genuineMu.Lock()
+	defer genuineMu.Unlock()
+	if g, ok := genuineCache[dev]; ok {
+		return g[0], g[1]
+	}
+	t, s, err := buildSignature(Case{DevKey: dev, Kind: "form1", Form: 1, EMHash: "sha256", TBS: []byte("a genuine slot certificate body")})
+	if err != nil {
+		return nil, nil
+	}
+	genuineCache[dev] = [2][]byte{t, s}
+	return t, s
 }
 
 // buildSignature returns (tbs, signature) for the Case.
@@ -420,6 +471,13 @@ func buildSignature(c Case) (tbs, sig []byte, err error) {
 		for i := 3 + pl + len(t) + len(c.Garbage); i < k; i++ {
 			em[i] = 0xff
 		}
+	case "dervariant":
+		t := derVariant(prefixNULL[c.EMHash], c.Form == 2, dig, c.PadLen, c.Garbage)
+		if k-3-len(t) < 8 {
+			return nil, nil, fmt.Errorf("key too small")
+		}
+		em = append([]byte{0, 1}, bytes.Repeat([]byte{0xff}, k-3-len(t))...)
+		em = append(append(em, 0), t...)
 	case "shortem":
 		t := append(append([]byte{}, prefix...), dig...)
 		short := append([]byte{0, 1}, bytes.Repeat([]byte{0xff}, c.PadLen)...)
@@ -453,6 +511,43 @@ func buildSignature(c Case) (tbs, sig []byte, err error) {
 	return tbs, sig, nil
 }
 
+// derVariant re-spells the DigestInfo (given with NULL parameters) in a way a lenient DER / BER reader
+// may take for the same content: junk inside the algorithm identifier or behind the digest with the
+// lengths adjusted, long-form lengths, other parameters, an indefinite length, junk behind everything.
+func derVariant(withNULL []byte, noNULL bool, dig []byte, variant int, junk []byte) []byte {
+	n := int(withNULL[5])
+	oid := withNULL[4 : 6+n] // 06 n <oid>
+	alg := append([]byte{}, oid...)
+	if !noNULL {
+		alg = append(alg, 5, 0)
+	}
+	seq := func(tag byte, body []byte) []byte { return append([]byte{tag, byte(len(body))}, body...) }
+	octets := seq(4, dig)
+	switch variant {
+	case 0: // junk inside the algorithm identifier
+		return seq(0x30, append(seq(0x30, append(alg, junk...)), octets...))
+	case 1: // junk behind the digest, inside the DigestInfo
+		return seq(0x30, append(append(seq(0x30, alg), octets...), junk...))
+	case 2: // long-form length of the outer sequence
+		body := append(seq(0x30, alg), octets...)
+		return append([]byte{0x30, 0x81, byte(len(body))}, body...)
+	case 3: // long-form length of the digest
+		return seq(0x30, append(seq(0x30, alg), append([]byte{4, 0x81, byte(len(dig))}, dig...)...))
+	case 4: // junk behind the DigestInfo
+		return append(seq(0x30, append(seq(0x30, alg), octets...)), junk...)
+	case 5: // other parameters in place of NULL / nothing
+		return seq(0x30, append(seq(0x30, append(append([]byte{}, oid...), seq(4, junk)...)), octets...))
+	case 6: // indefinite length
+		return append(append([]byte{0x30, 0x80}, append(seq(0x30, alg), octets...)...), 0, 0)
+	default: // long-form length of the object identifier
+		alg2 := append([]byte{6, 0x81, byte(n)}, oid[2:]...)
+		if !noNULL {
+			alg2 = append(alg2, 5, 0)
+		}
+		return seq(0x30, append(seq(0x30, alg2), octets...))
+	}
+}
+
 func exec(c Case) (vh.Outcome, error) {
 	hostTrustStore()
 	algo := x509.SignatureAlgorithm(c.Algo)
@@ -461,7 +556,22 @@ func exec(c Case) (vh.Outcome, error) {
 	if err != nil {
 		return out, nil
 	}
-	f9 := deviceCertExt(c.DevKey, c.Issuer, c.Validity, c.DevExt)
+	devSig := c.DevSig
+	{
+		// the signing key of the device certificate: its issuer's, or its own when self-signed; the
+		// algorithm choice only exists for RSA issuers
+		signKey := c.DevKey
+		if c.Issuer != "self" && c.Issuer != "selftwin" {
+			signKey = rootSpec(c.Issuer).Key
+		}
+		if !strings.HasPrefix(signKey, "rsa") {
+			devSig = ""
+		}
+	}
+	f9 := deviceCertExt(c.DevKey, c.Issuer, c.Validity, c.DevExt, devSig)
+	if devSig != "" {
+		out.Classes = append(out.Classes, "devsig="+devSig)
+	}
 	if c.DevExt != "" {
 		out.Classes = append(out.Classes, "devext="+c.DevExt)
 	}
@@ -500,6 +610,20 @@ func exec(c Case) (vh.Outcome, error) {
 		return out, vh.Errf("Attest crashed: %v", perr)
 	}
 	accepted := aerr == nil
+	// the verdict is a function of the two certificates and the pool, not of what was verified before:
+	// after a genuine attestation under the same device key (accepted, if the chain is good) the same
+	// call must give the same verdict
+	if _, isRSA := f9.PublicKey.(*rsa.PublicKey); isRSA && c.Kind != "ecdsa-device" {
+		gt, gs := genuineFor(c.DevKey)
+		good := &x509.Certificate{SignatureAlgorithm: x509.SHA256WithRSA, RawTBSCertificate: gt, Signature: gs}
+		var again error
+		if perr := vh.Catch(func() { _ = at.Attest(f9, good); again = at.Attest(f9, slot) }); perr != nil {
+			return out, vh.Errf("Attest crashed when repeated after a genuine attestation: %v", perr)
+		}
+		if (again == nil) != accepted {
+			return out, vh.Errf("the same attestation (label %v, device key %s, kind %s) was judged differently before (%v) and after (%v) a genuine attestation under the same device key", algo, c.DevKey, c.Kind, aerr, again)
+		}
+	}
 
 	// what the verifier sees: sig^e mod N, left-padded to the modulus length
 	sigOK := false
@@ -526,13 +650,13 @@ func exec(c Case) (vh.Outcome, error) {
 	if c.Kind == "siglonger" {
 		iff = false // zero bytes in front leave the signature VALUE unchanged: refusing the longer encoding is fine
 	}
-	if critical := c.DevExt != "" && c.DevExt != "yubico-plain"; !accepted && want && iff && !critical {
+	if critical := (c.DevExt != "" && c.DevExt != "yubico-plain") || devSig == "sha1"; !accepted && want && iff && !critical {
 		return out, vh.Errf("Attest refused a valid attestation (%v): label %v, device key %s, kind %s form %d hash %s\n EM seen: %x", aerr, algo, c.DevKey, c.Kind, c.Form, c.EMHash, seen)
 	}
 	return out, nil
 }
 
-const rule = "the harness owns the device RSA private key and signs arbitrary encoded messages (sig = EM^d mod N): correct form 1 (with NULL) and form 2 (without) for SHA-1/256/384/512; one byte replaced at a position drawn per class (00, 01, first / last / inner padding byte, separator, identifier, digest); shortened padding with shifted tail and garbage; short EM with 0..7 padding bytes; identifier of another hash; digest of other data; single-bit flips of signature and body; arbitrary signature bytes; a genuine signature with one or two bytes added in front or one behind; genuine ECDSA signature under a non-RSA device key. Crossed with every signature-algorithm label 0..20, device key sizes 1024/1025/1031/1536/2047/2048 (rarely 4096/4104/4608/6144; always, with 3072, in thorough), device certificate issued by a pool root / by a CA outside the pool / self-signed / expired / not yet valid, optionally carrying a vendor extension (Yubico arc, plain or critical) or another unknown critical extension (then only 'accepted => valid chain' is judged), pools of 1..3 roots handed over as a pool or (a third) as the two PEM files NewAttestor reads - the CA outside the pool is installed as this process's host trust store (SSL_CERT_FILE), i.e. a publicly trusted CA that is not configured -, slot certificate dated now / inside an expired device certificate's window / in the future / not at all (the chain must be judged at the current time). Oracle: the harness recomputes sig^e mod N itself; for *WithRSA SHA labels Attest = nil iff chain valid now and EM is form 1 or form 2 of the label's digest; DSA/ECDSA labels only-if; everything else must be refused. Non-trivial: every case except 'everything valid, form 1'."
+const rule = "the harness owns the device RSA private key and signs arbitrary encoded messages (sig = EM^d mod N): correct form 1 (with NULL) and form 2 (without) for SHA-1/256/384/512; one byte replaced at a position drawn per class (00, 01, first / last / inner padding byte, separator, identifier, digest); shortened padding with shifted tail and garbage; short EM with 0..7 padding bytes; full-length EM whose DigestInfo is another DER / BER spelling (junk inside the algorithm identifier or behind the digest with adjusted lengths, long-form or indefinite lengths, other parameters, junk behind it); identifier of another hash; digest of other data; single-bit flips of signature and body; arbitrary signature bytes; a genuine signature with one or two bytes added in front or one behind; genuine ECDSA signature under a non-RSA device key. A fifth of the cases keep the signature genuine and vary only the chain side (issuer, dates, extensions, the issuer's signature algorithm, constructor). Crossed with every signature-algorithm label 0..20, device key sizes 1024/1025/1031/1536/2047/2048 (rarely 4096/4104/4608/6144; always, with 3072, in thorough), device certificate issued by a pool root / by a CA outside the pool / self-signed / expired / not yet valid, optionally carrying a vendor extension (Yubico arc, plain or critical) or another unknown critical extension (then only 'accepted => valid chain' is judged), signed by its issuer with SHA-256 / SHA-384 / SHA-512 or SHA-1 (which the platform verifier refuses by policy: only 'accepted => valid chain' is judged), pools of 1..3 roots handed over as a pool or (a third) as the two PEM files NewAttestor reads - the CA outside the pool is installed as this process's host trust store (SSL_CERT_FILE), i.e. a publicly trusted CA that is not configured -, slot certificate dated now / inside an expired device certificate's window / in the future / not at all (the chain must be judged at the current time). Oracle: the harness recomputes sig^e mod N itself; the verdict is the same when the call is repeated after a genuine attestation under the same device key; for *WithRSA SHA labels Attest = nil iff chain valid now and EM is form 1 or form 2 of the label's digest; DSA/ECDSA labels only-if; everything else must be refused. Non-trivial: every case except 'everything valid, form 1'."
 
 func TestC06Attest(t *testing.T) {
 	vh.Run(t, vh.Spec[Case]{Property: "C06", Name: "TestC06Attest", Rule: rule, Gen: genCase, Exec: exec})
